@@ -374,13 +374,21 @@ package dbft
 //@   ensures [C07] @enabled result == amev()
 //@   modifies nothing
 
+// C16: the subscription callback is used only when the maximum-block-time extension is configured.
+//@ func (*Context).subscribeForTransactions
+//@   requires [C16] @configured c.Config.MaxTimePerBlock != nil
+//@   requires cfgOK()
+//@   ensures c.txSubscriptionOn
+//@   modifies Context.txSubscriptionOn
+//@ callers [C16] Config.SubscribeForTxs : (*Context).subscribeForTransactions
 //@ func (*Context).reset
 //@   requires base() && implies(view > 0, wf() && slot() && tip() && view > self.ViewNumber)
 //@   requires ts + self.TimestampIncrement <= 18446744073709551615
 //@   use INV
 //@   ensures self.ViewNumber == view
 //@   ensures [C05,C04,C12] @cleanProposal cleanProposal()
-//@   ensures [C05] @cleanHeight implies(view == 0, !self.blockProcessed && !self.preBlockProcessed && !self.txSubscriptionOn && self.lastBlockTimestamp == ts)
+//@   ensures [C05] @cleanHeight implies(view == 0, !self.blockProcessed && !self.preBlockProcessed && self.lastBlockTimestamp == ts)
+//@   ensures [C16,C05] @unsubscribed !self.txSubscriptionOn
 //@   ensures implies(view > 0, sameHeight() && unchanged(self.CommitPayloads, self.PreCommitPayloads, self.preBlockProcessed, self.blockProcessed))
 //@   ensures forall(i, 0, NN(), self.PreparationPayloads[i] == nil && self.ChangeViewPayloads[i] == nil) && implies(view == 0, forall(i, 0, NN(), self.CommitPayloads[i] == nil && self.PreCommitPayloads[i] == nil))
 //@   ghost gPrep = nil
@@ -484,6 +492,9 @@ package dbft
 //@   use U
 //@   use UNDECIDED
 //@   ensures [C10] @arms gTimerArms > old(gTimerArms)
+//@   ensures [C16] @forcedProposes implies(force || self.Config.MaxTimePerBlock == nil, gBroadcasts > old(gBroadcasts))
+//@   ensures [C16] @emptyWaitsMax implies(gBroadcasts == old(gBroadcasts), self.Config.MaxTimePerBlock != nil && !force && self.txSubscriptionOn
+//@        && gTimerD == self.maxTimePerBlock - self.timePerBlock && gTimerH == self.BlockIndex && gTimerV == self.ViewNumber && self.ViewNumber == old(self.ViewNumber))
 //@   requires [C13] @silent notWatchOnly()
 //@   requires self.MyIndex == self.PrimaryIndex && !rsor()
 //@   wraps d.ViewNumber+1 unless aview()
@@ -664,10 +675,14 @@ package dbft
 //@   ensures [C05] @quiescent implies(old(self.blockProcessed), quiet() && gBroadcasts == old(gBroadcasts))
 //@ func (*DBFT).OnNewTransaction
 //@   use U
+//@   ensures [C16] @ignoredUnlessSubscribed implies(!old(self.txSubscriptionOn), quiet() && gBroadcasts == old(gBroadcasts))
 //@   ensures [C05] @quiescent implies(old(self.blockProcessed), quiet() && gBroadcasts == old(gBroadcasts))
 //@ func (*DBFT).onTimeout
 //@   use U
 //@   ensures [C05] @quiescent implies(old(self.blockProcessed), quiet() && gBroadcasts == old(gBroadcasts))
+//@   at call d.sendChangeView: assert [C16] @noIdleViewChange implies(self.ViewNumber == 0 && self.Config.MaxTimePerBlock != nil && self.MyIndex >= 0 && self.MyIndex != self.PrimaryIndex
+//@        && !force && !self.txSubscriptionOn, len(gPool) != 0)
+//@   at call d.subscribeForTransactions: assert [C16] @idleBackupSubscribes self.ViewNumber == 0 && self.MyIndex != self.PrimaryIndex && !force && !self.txSubscriptionOn && len(gPool) == 0
 //@   ensures [C10] @rearm implies(aview() && height == old(self.BlockIndex) && view == old(self.ViewNumber) && !old(self.blockProcessed) && notWatchOnly(), gTimerArms > old(gTimerArms) || self.blockProcessed)
 //@ func (*DBFT).OnReceive
 //@   use U
